@@ -190,6 +190,10 @@ func genScenario(cfg ScenarioCfg) *rapid.Generator[Scenario] {
 				sc.ExcludedKnown = "fitness times age significance would overflow"
 			}
 		}
+		if cfg.HugeFitness && sc.Fit.Scale < 1e300 && rapid.IntRange(0, 9).Draw(t, "denormal fitness") == 0 {
+			// fitness values at the bottom of the float64 range: sums and averages underflow to denormals or to 0
+			sc.Fit.Scale = rapid.SampledFrom([]float64{1e-300, 1e-308, 1e-310, 1e-320, 1e-322, 5e-324}).Draw(t, "denormal fitness scale")
+		}
 		switch cfg.Parallel {
 		case 1:
 			sc.Opts.Parallel = rapid.IntRange(0, 3).Draw(t, "parallel") == 0
